@@ -1172,22 +1172,37 @@ fn c08(case: &Case, ctx: &Ctx, rpt: &mut Report, rng: &mut Rng) {
             let remainder_empty = Path::new(p)
                 .strip_prefix(&prefix)
                 .map_or(false, |r| r.as_os_str().is_empty());
-            // A path the original glob matches although it is outside the documented language is
-            // C01's to judge (its known findings are listed there).
-            if lhs
-                && case.ast.as_ref().map_or(false, |a| a.notes.is_empty())
-                && case.model.as_ref().map_or(false, |m| m.matches(&chars(p), Mode::May, Quirks::default()) == Tri::No)
-            {
-                rpt.bucket("skipped:matched-path-outside-model-language(C01 judges)");
-                continue;
-            }
             // Consequence of the listed C01 finding: the glob begins with a rooted tree wildcard
             // (which accepts partial components) and matches a path that prefix + postfix do not.
+            // With a documented expression the reference model must not affirm the path (MUST
+            // language) and must grant it once the named quirk is switched on.
+            let documented = case.ast.as_ref().map_or(false, |a| a.notes.is_empty());
+            let outside_model = documented
+                && case.model.as_ref().map_or(false, |m| m.matches(&chars(p), Mode::May, Quirks::default()) == Tri::No);
             let explained_by_rooted_quirk = lhs
                 && !rhs
                 && case.ast.as_ref().map_or(false, |a| {
                     matches!(a.seq.toks.first().map(|t| &t.node), Some(Node::Tree { lead: true, trail: true }))
-                });
+                })
+                && (!documented
+                    || (case.model.as_ref().map_or(false, |m| m.matches(&chars(p), Mode::Must, Quirks::default()) != Tri::Yes)
+                        && case.model.as_ref().map_or(false, |m| {
+                            // (The other listed quirk is switched on as well when the expression
+                            // has a tree wildcard at the edge of a repetition body.)
+                            m.matches(
+                                &chars(p),
+                                Mode::May,
+                                Quirks {
+                                    rooted_leading_tree_is_dotstar: true,
+                                    rep_edge_tree_any_form: m.asts.iter().any(|(_, i)| !i.rep_edge.is_empty()),
+                                },
+                            ) != Tri::No
+                        })));
+            // Any other path the original glob matches although it is outside the documented
+            // language is C01's to judge (its known findings are listed there).
+            if lhs && outside_model && !explained_by_rooted_quirk {
+                rpt.bucket("matched-path-outside-model-language(also C01's)");
+            }
             let lists_sep = case.ast.as_ref().map_or(false, |a| {
                 a.has_feature(&|t, _| match &t.node {
                     Node::Class { neg: false, items } => items.iter().all(|(a, b)| *a == '/' && *b == '/'),
@@ -1356,18 +1371,6 @@ fn model_of(exprs: &[&str]) -> Option<ModelPattern> {
     Some(ModelPattern::union(asts))
 }
 
-/// True if the reference model is certain that `p` is outside the documented language of the
-/// pattern: a match of such a path is C01's to judge, not the query monitors'.
-fn outside_model(q: &Queried, p: &str, rpt: &mut Report) -> bool {
-    if let Some(m) = &q.model {
-        if m.matches(&chars(p), Mode::May, Quirks::default()) == Tri::No {
-            rpt.bucket("skipped:matched-path-outside-model-language(C01 judges)");
-            return true;
-        }
-    }
-    false
-}
-
 fn query<'t, P: Program<'t>>(p: &P, label: Value, is_any: bool, model: Option<ModelPattern>, exprs: &[&str]) -> Queried {
     Queried {
         class_asts: exprs
@@ -1390,6 +1393,8 @@ fn query<'t, P: Program<'t>>(p: &P, label: Value, is_any: bool, model: Option<Mo
 
 /// Rooted and unrooted members for combinators of combinators.
 const ROOT_MIX_POOL: &[&str] = &["/a", "/b/**", "/**/x", "/*", "/", "c", "d/*", "**/e", "*.f", "</g:1,>", "{h,i}/j", "/{k,l}"];
+
+const ROOTED_POOL: &[&str] = &["/a", "/b/**", "/**/x", "/*", "/", "/{k,l}", "/**/*.y", "</**/z:1,>", "</g:1,2>", "/**", "{/m,/n/o}", "/a/*/b"];
 
 /// Splits `n` members into two or more consecutive non-empty groups.
 fn random_groups(rng: &mut Rng, n: usize) -> Vec<usize> {
@@ -1513,7 +1518,7 @@ fn c09_paths(q: &Queried, is_match: &dyn Fn(&str) -> Option<bool>, paths: &[Stri
     };
     let mut pairs = 0;
     for p in paths.iter().filter(|p| gpath::is_canonical(p)) {
-        if is_match(p) != Some(true) || outside_model(q, p, rpt) {
+        if is_match(p) != Some(true) {
             continue;
         }
         for _ in 0..4 {
@@ -1598,7 +1603,7 @@ fn c10_paths(q: &Queried, is_match: &dyn Fn(&str) -> Option<bool>, paths: &[Stri
             Some(When::Never) if rooted => continue,
             _ => {},
         }
-        if is_match(p) != Some(true) || outside_model(q, p, rpt) {
+        if is_match(p) != Some(true) {
             continue;
         }
         if !members.is_empty() {
@@ -1692,9 +1697,6 @@ fn c11_paths(q: &Queried, is_match: &dyn Fn(&str) -> Option<bool>, paths: &[Stri
         };
         rpt.evaluations += 1;
         others += 1;
-        if got && outside_model(q, x, rpt) {
-            continue;
-        }
         if got {
             let key = if x.chars().count() == tc.len()
                 && x.chars().zip(tc.iter()).all(|(a, b)| a == *b || (!has_casing_std(*b) && crate::refmodel::matcher::fold_eq(a, *b)))
@@ -1816,7 +1818,9 @@ fn c12_paths(q: &Queried, is_match: &dyn Fn(&str) -> Option<bool>, paths: &[Stri
     if root == When::Always {
         let mut n = 0;
         for p in paths {
-            if is_match(p) != Some(true) || outside_model(q, p, rpt) {
+            // (No deferral to C01 here: a relative path matched by an always-rooted pattern
+            // refutes the statement whether or not the documented language contains it.)
+            if is_match(p) != Some(true) {
                 continue;
             }
             rpt.evaluations += 1;
@@ -2274,9 +2278,19 @@ impl Monitor for GroupA {
                 if rng.chance(1, 3) {
                     // A combinator of combinators mixing rooted and unrooted members in a random
                     // order (the documented idiom for mixing compiled and textual patterns).
-                    let mut members: Vec<&str> = vec![case.expr];
-                    for _ in 0..rng.range(2, 4) {
-                        members.push(rng.pick_str(ROOT_MIX_POOL));
+                    // One mix in three consists of rooted members only (the combinator must then
+                    // be always rooted and match no relative path).
+                    let mut members: Vec<&str> = Vec::new();
+                    if rng.chance(1, 3) {
+                        for _ in 0..rng.range(2, 4) {
+                            members.push(rng.pick_str(ROOTED_POOL));
+                        }
+                    }
+                    else {
+                        members.push(case.expr);
+                        for _ in 0..rng.range(2, 4) {
+                            members.push(rng.pick_str(ROOT_MIX_POOL));
+                        }
                     }
                     rng.shuffle(&mut members);
                     let groups = random_groups(&mut rng, members.len());
